@@ -128,3 +128,18 @@ def search(rec, ctx):
         check(rec, {"parts": [p[1] for p in ps], "kinds": [p[0] for p in ps]})
 
     drive(st.randoms(use_true_random=False), gen, ctx.budget(12000, 150000), ctx.hseed("lists"))
+
+
+def candidates(case):
+    """fewer parts, then fewer lines inside a part (each candidate part must still parse alone: check() excludes otherwise)"""
+    parts, kinds = case["parts"], case.get("kinds", ["?"] * len(case["parts"]))
+    if len(parts) > 2:
+        for i in range(len(parts)):
+            yield dict(case, parts=parts[:i] + parts[i + 1 :], kinds=kinds[:i] + kinds[i + 1 :])
+    for i, p in enumerate(parts):
+        lines = p.split("\n")
+        if len(lines) > 2:
+            for j in range(len(lines) - 1):
+                q = "\n".join(lines[:j] + lines[j + 1 :])
+                if q.strip():
+                    yield dict(case, parts=parts[:i] + [q] + parts[i + 1 :])
